@@ -329,6 +329,55 @@ def check_max(prog: Program, res: Result) -> None:
         res.ob(R, bool(alts) and all(_plain(a_) for a_ in alts), g.qualname, "every one of those instances is drawn (no filtering before the maps are made)",
                f"the points handed to make_multi_confmaps are `{'` / `'.join(short(a_, 60) for a_ in alts)}`: instances are filtered or re-indexed before drawing, "
                "so an animal with some labelled nodes can lose its bumps", f"{g.module.relpath}:{mc[0].lineno}")
+    # the sibling callers (the DataPipe generators) obey the same two conditions as the functional API: ALL the instances
+    # they were given are drawn (no mask / index selection on the points), and the sampling grid is rebuilt from the image
+    # of the CURRENT example on every iteration (a grid kept from an earlier example has the wrong size / offsets)
+    def _selects(fn, e) -> Optional[str]:
+        for sub in ast.walk(e):
+            if not isinstance(sub, ast.Subscript):
+                continue
+            for ix in (sub.slice.elts if isinstance(sub.slice, ast.Tuple) else [sub.slice]):
+                if isinstance(ix, (ast.UnaryOp, ast.Compare, ast.BoolOp)) and not isinstance(getattr(ix, "operand", None), ast.Constant):
+                    return short(sub, 50)
+                if isinstance(ix, ast.Name):
+                    for d_ in astq.assignments_to(fn, ix.id):
+                        v_ = getattr(d_, "value", None)
+                        t_ = norm(v_) if v_ is not None else ""
+                        if "isnan" in t_ and ".all(" in t_ and ".any(" not in t_:
+                            continue  # drops only rows that are NaN throughout (padding): they draw nothing anyway
+                        if v_ is not None and any(isinstance(x, ast.Compare) or (isinstance(x, ast.Call) and norm(x.func).split(".")[-1] in ("isnan", "isfinite", "any", "all", "nonzero", "where")) for x in ast.walk(v_)):
+                            return short(sub, 50)
+        return None
+
+    n_sib = 0
+    for f2 in prog.all_functions():
+        if not f2.module.name.startswith("sleap_nn.data") or f2 is g:
+            continue
+        for c2, q2 in prog.calls_in(f2):
+            if q2 not in (f"{CM}:make_multi_confmaps", f"{CM}:make_confmaps") or f2.qualname in (f"{CM}:make_multi_confmaps", f"{CM}:generate_confmaps"):
+                continue
+            callee = prog.func(q2)
+            b2 = astq.bind_args(callee, c2)
+            st2 = enclosing_stmt(c2)
+            res.touch(f2)
+            n_sib += 1
+            pts = b2.get(callee.pos_params[0])
+            alts = [pts]
+            if isinstance(pts, ast.Name):
+                alts = [d_.value for d_ in astq.assignments_to(f2.node, pts.id) if isinstance(d_, ast.Assign)] or [pts]
+            bad = next((x for x in (_selects(f2.node, a_) for a_ in alts) if x), None)
+            res.ob(R, bad is None, f2.qualname, f"{callee.name} receives all the points of the example", f"the points handed to {callee.name} are selected by `{bad}`: "
+                   "instances are filtered before drawing, so an animal with some labelled nodes can lose its bumps", f"{f2.module.relpath}:{c2.lineno}")
+            loops = astq.enclosing_loops(c2)
+            if loops:
+                for gv in ("xv", "yv"):
+                    arg = b2.get(gv)
+                    rd = astq.reaching_def(f2.node, arg.id, st2, unpack_calls=True) if isinstance(arg, ast.Name) else None
+                    gcall = rd.value.value if rd is not None and isinstance(rd.value, ast.Subscript) else (rd.value if rd is not None else None)
+                    fresh = rd is not None and astq.in_body_of(getattr(rd, "_orig", rd), loops[0], "body") and isinstance(gcall, ast.Call) and prog.resolve_call(f2, gcall) == f"{UT}:make_grid_vectors"
+                    res.ob("C01-grid", fresh, f2.qualname, f"{gv} is rebuilt for every example", f"`{short(arg, 20) if arg is not None else gv}` is not (re)computed by make_grid_vectors "
+                           f"in the iteration that uses it: a grid built for an earlier example is reused for images of another size", f"{f2.module.relpath}:{c2.lineno}")
+    res.ob(R, n_sib >= 2, fi.qualname, "sibling callers found", f"only {n_sib} DataPipe callers of make_confmaps / make_multi_confmaps", fi.where)
     res.floor(R, 6)
 
 
